@@ -56,8 +56,8 @@ var baseTable = FunctionTable{
 		0,
 		false,
 	},
-	"subsetOf":   notImplemented,
-	"supersetOf": notImplemented,
+	"subsetOf":   notImplementedWithArity(1, 1),
+	"supersetOf": notImplementedWithArity(1, 1),
 	"count": Function{
 		impl.Count,
 		0,
@@ -88,9 +88,9 @@ var baseTable = FunctionTable{
 		1,
 		false,
 	},
-	"repeat": notImplemented,
-	"ofType": notImplemented,
-	"single": notImplemented,
+	"repeat": notImplementedWithArity(1, 1),
+	"ofType": notImplementedWithArity(1, 1),
+	"single": notImplementedWithArity(0, 0),
 	"first": Function{
 		impl.First,
 		0,
@@ -133,8 +133,8 @@ var baseTable = FunctionTable{
 		1,
 		false,
 	},
-	"union":   notImplemented,
-	"combine": notImplemented,
+	"union":   notImplementedWithArity(1, 1),
+	"combine": notImplementedWithArity(1, 1),
 	"iif": Function{
 		impl.Iif,
 		2,
@@ -183,7 +183,7 @@ var baseTable = FunctionTable{
 		0,
 		false,
 	},
-	"convertToDateTime": Function{
+	"convertsToDateTime": Function{
 		impl.ConvertsToDateTime,
 		0,
 		0,
@@ -202,7 +202,7 @@ var baseTable = FunctionTable{
 		false,
 	},
 	"toQuantity": Function{
-		impl.ToInteger,
+		impl.ToQuantity,
 		0,
 		1,
 		false,
@@ -341,20 +341,20 @@ var baseTable = FunctionTable{
 	},
 	"log": Function{
 		impl.Log,
-		0,
-		0,
+		1,
+		1,
 		false,
 	},
 	"power": Function{
 		impl.Power,
-		0,
-		0,
+		1,
+		1,
 		false,
 	},
 	"round": Function{
 		impl.Round,
 		0,
-		0,
+		1,
 		false,
 	},
 	"sqrt": Function{
@@ -381,7 +381,7 @@ var baseTable = FunctionTable{
 		0,
 		false,
 	},
-	"trace": notImplemented,
+	"trace": notImplementedWithArity(1, 2),
 	"now": Function{
 		impl.Now,
 		0,
